@@ -44,6 +44,7 @@ type env struct {
 	existing *protocol.ResolutionModel
 	jwk      *jws.JWK
 	docs     []document.Document
+	states   []*protocol.ResolutionModel // existing states with a string / object / list anchor origin
 }
 
 func newEnv() *env {
@@ -64,6 +65,15 @@ func newEnv() *env {
 	e.existing, err = e.applier.Apply(&operation.AnchoredOperation{Type: operation.TypeCreate, OperationRequest: ops.Bytes(c), UniqueSuffix: ops.Suffix(c, 18), TransactionTime: 1}, &protocol.ResolutionModel{})
 	if err != nil {
 		panic(err)
+	}
+	// further existing states: the author-chosen members of a state (anchor origin) as a string, an object and a list
+	for _, origin := range []any{"origin.example", map[string]any{"a": []any{1.0}}, []any{"x", 1.0}} {
+		c := ops.ValidCreate(rec, upd, []any{ops.ParseJSON(`{"action":"add-also-known-as","uris":["https://x.example/"]}`)}, 18, origin)
+		st, err := e.applier.Apply(&operation.AnchoredOperation{Type: operation.TypeCreate, OperationRequest: ops.Bytes(c), UniqueSuffix: ops.Suffix(c, 18), TransactionTime: 1}, &protocol.ResolutionModel{})
+		if err != nil {
+			panic(err)
+		}
+		e.states = append(e.states, st)
 	}
 	e.jwk = upd.JWK()
 	for _, d := range []string{`{}`, `{"m":{"n":1},"a":[1,2],"publicKey":[{"id":"k1","type":"JsonWebKey2020","publicKeyJwk":{"kty":"EC","crv":"P-256","x":"eA","y":"eQ"}}],"service":[{"id":"s1","type":"T","serviceEndpoint":"https://s.example/"}]}`,
@@ -128,6 +138,9 @@ func (e *env) entries() []entry {
 				_, _ = e.applier.Apply(an, &protocol.ResolutionModel{})
 				if res, err := e.applier.Apply(an, e.existing); err == nil && res != nil && res.Doc != nil {
 					transform(res.Doc)
+				}
+				for _, st := range e.states {
+					_, _ = e.applier.Apply(an, st)
 				}
 			}
 		}},
